@@ -7,6 +7,7 @@ pub mod c10;
 pub mod c11;
 pub mod c12;
 pub mod c14;
+pub mod c15;
 pub mod c17;
 pub mod c18;
 pub mod c19;
@@ -28,6 +29,7 @@ pub fn table() -> Vec<(&'static str, CheckFn, ReplayFn)> {
         ("C11", c11::check, c11::replay),
         ("C12", c12::check, c12::replay),
         ("C14", c14::check, c14::replay),
+        ("C15", c15::check, c15::replay),
         ("C17", c17::check, c17::replay),
         ("C18", c18::check, c18::replay),
         ("C19", c19::check, c19::replay),
